@@ -221,6 +221,11 @@ class ParserModel:
                     if ne and any(y.k == "lit" and y.a[1] == "(" for y in ne) and lens:
                         return {"char": "("}
         self.notes.append("P4 (char after the function name must be `(`) not found in function_expr")
+        # a rejecting test that reads the rule's text but could not be interpreted: fail closed rather than model no check
+        t0 = self.ev.summary(p)
+        for x in subterms(t0):
+            if x.k == "if" and (_is_err(x.a[1]) or _is_err(x.a[2])) and any(y.k == "call" and y.a[0].endswith("as_str") for y in subterms(x.a[0])):
+                return {"unknown": "function_expr rejects some texts under a condition the model cannot read: %s" % str(x.a[0])[:160]}
         return None
 
     # ---- P5: character validators -------------------------------------------------------------------
@@ -377,4 +382,5 @@ class ParserModel:
             other_ok = len(sel) == 1 and t.a[1][sel[0][0]][2].k == "adt" and t.a[1][sel[0][0]][2].a[1] == "Ok"
             return {"accepted": acc, "other_accepted": other_ok}
         self.notes.append("Comparison::try_new is not a match on the operator")
-        return {"accepted": [], "other_accepted": True}
+        return {"accepted": [], "other_accepted": True, "unknown": "Comparison::try_new does not decide by a match on the operator text: which "
+                "operator strings it accepts could not be read"}
